@@ -7,7 +7,9 @@ import random
 from sfv.framework import Ctx, Property
 from sfv.rt import recov
 from sfv.rt.par import pmap
+from sfv.translate import recoverguard
 
+K_INFLIGHT = "producer-rolled-back-while-it-was-being-re-executed"
 K_LATE = "producer-reexecuted-more-than-once-per-loss:recovery-started-after-the-regeneration-completed"
 
 
@@ -25,12 +27,46 @@ def gen_cases(rng: random.Random, quick: bool) -> list[dict]:
         plan = [{"step": s, "tag": "0", "phase": "execute", "kind": "failstop", "count": 1, "lose": [[s, "0"], ["/a", "0"]]} for s in ("/b1", "/b2")]
         cases.append({"name": f"diamond-b1-b2-failstop-seed{seed}", "shape": {"kind": "diamond"}, "plan": plan, "max_retries": 8,
                       "trace_fm": True, "lseed": seed})
+    cases += gated_cases(quick)
     refs = {}
     for c in list(cases):
         key = json.dumps(c["shape"], sort_keys=True)
         if key not in refs:
             refs[key] = {"name": "ref " + key, "shape": c["shape"], "plan": [], "max_retries": 8, "ref": True}
     return list(refs.values()) + cases
+
+
+def gated_cases(quick: bool) -> list[dict]:
+    """forced interleavings (event gates of the harness, no timing luck): output `a` of A has two consumers B1 and B2; B1's fail-stop
+    failure loses `a` and starts a re-execution of A; B2 fails exactly while that re-execution is RUNNING (gate in A's command) resp. has
+    just been scheduled = FIREABLE (gate in A's ScheduleStep); A is held there until B2's recovery has finished `_synchronize_workflows`.
+    B2's recovery must attach to the running re-execution: A starts twice, not three times."""
+    out = []
+    for phase, mark in (("execute", "running"), ("schedule", "fireable")):
+        for b2kind in (["soft"] if quick else ["soft", "failstop"]):
+            out.append({"name": f"diamond-gated-b2-fails-while-rerun-of-a-is-{mark}-{b2kind}", "shape": {"kind": "diamond"}, "max_retries": 8,
+                        "trace_fm": True, "lseed": None,
+                        "plan": [{"step": "/b1", "tag": "0", "phase": "execute", "kind": "failstop", "count": 1, "lose": [["/b1", "0"], ["/a", "0"]]},
+                                 {"step": "/b2", "tag": "0", "phase": "execute", "kind": b2kind, "count": 1}],
+                        "gates": [{"job": "/b2/0", "attempt": 1, "wait": f"a-{mark}-again", "timeout": 60},
+                                  {"job": "/a/0", "attempt": 2, "phase": phase, "signal": f"a-{mark}-again", "wait": "synced:/b2/0", "timeout": 60}],
+                        "expect_attempts": {"/a/0": 2, "/b1/0": 2, "/b2/0": 2, "/c/0": 1}})
+    return out
+
+
+def inflight_claims(timeline: list) -> list[str]:
+    """claims (`_update_request` entered) of a job between an earlier claim of it and the end of the execution that claim started"""
+    inflight, bad = {}, []
+    for i, (kind, job) in enumerate(timeline):
+        if kind == "claim":
+            if inflight.get(job):
+                bad.append(f"{job} (event #{i}; claimed at #{inflight[job] - 1}, no end of execution in between)")
+            inflight[job] = i + 1
+        elif kind == "claim-refused":
+            inflight[job] = 0
+        elif kind in ("exec", "fail"):
+            inflight[job] = 0
+    return bad
 
 
 def lock_order_conflict(fm_events: list) -> str | None:
@@ -85,6 +121,13 @@ def judge(case: dict, r: dict, ref: dict | None) -> list[tuple[str, str]]:
         if execs - 1 > epochs + own_failures:
             fails.append((K_LATE, f"{name}: {job} executed {execs} times, its data was lost {epochs} time(s), it failed itself {own_failures} time(s): "
                                   f"{mine}"))
+    bad = inflight_claims(r.get("timeline", []))
+    if bad:
+        fails.append((K_INFLIGHT, f"{name}: rolled back again while its re-execution was under way (ROLLBACK/FIREABLE/RUNNING): {bad}; "
+                                  f"attempts {r['attempts']}; timeline {[e for e in r['timeline'] if e[0] in ('start', 'exec', 'fail', 'lose', 'claim', 'signal')]}"))
+    for job, n in (case.get("expect_attempts") or {}).items():
+        if r["attempts"].get(job, 0) != n and not bad and not any(e[0] == "gate-timeout" for e in r.get("timeline", [])):
+            fails.append(("executions-differ-from-forced-interleaving", f"{name}: {job} executed {r['attempts'].get(job, 0)} times, expected {n}"))
     for job, v in r["versions"].items():
         if job in r["attempts"] and v < r["attempts"][job]:
             fails.append(("more-executions-than-version", f"{name}: {job} version {v} attempts {r['attempts'][job]}"))
@@ -97,15 +140,21 @@ class C19(Property):
     lean_targets = ["SFV.Props.C19", "SFV.Model.Proto"]
     props_files = ["SFV/Props/C19.lean"]
     drivers = ["Drivers/C19.lean"]
-    translators = []
+    translators = [recoverguard.generate]
     rule = ("real scatter (2..6 elements) and diamond workflows in which 2..6 jobs fail concurrently with fail-stop failures that delete the failed "
             "job's directories AND those of the shared ancestor (own injector), under the default schedule and under controlled-loop schedules "
             "(seeded shuffling of ready handles); observed: termination (wall-clock watchdog), outputs vs the failure-free run, executions per job, "
             "RecoveryRequest versions, and — through wrappers installed on the failure manager instance — every lock acquisition / release, every "
             "is_recovering check made under a request's lock and every successful claim; the lock/claim trace is replayed on the Lean claim model "
             "(claim only under the lock after a negative check, at most one claim per epoch) and the acquisition orders of different recoveries are "
-            "checked for consistency.")
+            "checked for consistency. Forced interleavings (event gates in the harness's command / schedule step): a second consumer fails exactly "
+            "while the shared producer's re-execution is RUNNING resp. FIREABLE; no claim of a job may fall between an earlier claim of it and the "
+            "end of the execution that claim started. T: the status tuple of is_recovering is generated and proved to cover ROLLBACK, FIREABLE, "
+            "RUNNING and to exclude settled statuses.")
     trusted_base = ["recovery harness harness/sfv/rt/recov.py (own injectors, failure-manager wrappers installed at run time on the instance)",
+                    "translator harness/sfv/translate/recoverguard.py (Status enumeration, status tuple of is_recovering)",
+                    "the status sequence claim -> ROLLBACK -> FIREABLE -> RUNNING -> COMPLETED/failed of the status-refined claim model is read off "
+                    "failure_manager.py / scheduler.py / step.py by hand (the forced-interleaving runs exercise RUNNING and FIREABLE)",
                     "delivery of regenerated tokens to attached recoveries and termination of each recovery executor are runtime layers (observed, not proved)"]
     assumptions = ["retry limit not reached (max_retries 8)"]
     technique = "Lean 4: ordered-lock no-deadlock theorem + claim protocol invariant (all interleavings) + real concurrent fail-stop runs with lock/claim trace replay"
@@ -122,7 +171,7 @@ class C19(Property):
         quick = ctx.tier == "quick" and ctx.mode != "search"
         cases = gen_cases(ctx.rng, quick)
         results = {}
-        for case, status, r in pmap(recov.run_case, cases, timeout=900, workers=6):
+        for case, status, r in recov.run_cases(cases, timeout=300, workers=6):
             results[case["name"]] = (case, status, r)
         lines, meta = [], []
         for name, (case, status, r) in results.items():
@@ -137,6 +186,9 @@ class C19(Property):
             ref = results.get("ref " + json.dumps(case["shape"], sort_keys=True))
             for key, detail in judge(case, r, ref[2] if ref and ref[1] == "ok" else None):
                 ctx.fail(key, detail, replay)
+            if any(e[0] == "gate-timeout" for e in r.get("timeline", [])):
+                ctx.count("gate-timeout")
+                ctx.notes.append(f"{name}: a gate of the forced interleaving timed out (interleaving not forced in this run)")
             if r["outcome"] != "ok":
                 continue
             jobs = {}
@@ -171,7 +223,7 @@ class C19(Property):
             return super().replay(ctx, data)
         case = rr["recovery"]
         r = recov.run_case(case)
-        print(json.dumps({k: r.get(k) for k in ("outcome", "msg", "attempts", "versions", "injected", "events", "fm_events")}, indent=1, default=str)[:8000])
+        print(json.dumps({k: r.get(k) for k in ("outcome", "msg", "attempts", "versions", "injected", "timeline", "fm_events")}, indent=1, default=str)[:8000])
         for key, detail in judge(case, r, None):
             ctx.fail(key, detail, rr)
 
